@@ -277,14 +277,23 @@ def importPreamble (c : Cfg) (hdr qdb mparam : Name) : Pre :=
   if c.active && !c.allow d mparam then ⟨.denied, [], [], [mparam]⟩ else
   ⟨.ok, d, mparam, if c.active then [mparam] else []⟩
 
-/-- handleCSVImport / handleParquetImport: a rejected preamble (sentinel error) ends the request. -/
-def importOne (c : Cfg) (hdr qdb mparam : Name) (fileOk : Bool) (cols : List Name) : Out :=
+/-- handleCSVImport / handleParquetImport: a rejected preamble (sentinel error) ends the request; `fileOk` = the
+file is accepted by the in-process reader (parses AND passes validateImportHeader). -/
+def importCore (c : Cfg) (hdr qdb mparam : Name) (fileOk : Bool) (cols : List Name) : Out :=
   let p := importPreamble c hdr qdb mparam
   let rdb := if hdr = [] then qdb else hdr
   if p.status ≠ .ok then { status := p.status, db := rdb, checked := p.checked } else
   if !fileOk then { status := .bad, db := rdb, checked := p.checked } else
   { status := .ok, db := rdb, checked := p.checked, keys := [⟨p.db, p.m⟩], flushed := true,
     wal := [walRows p.db p.m [cols]] }
+
+/-- validateImportHeader: a column whose name starts with '_' is refused (400) — such names are reserved for
+internal columns and the Parquet writer would not store them -/
+def underscoreCol (cols : List Name) : Bool := cols.any (fun c => c.head? = some underscore)
+
+/-- `parses`: the uploaded bytes are a readable CSV / Parquet file with a time column -/
+def importOne (c : Cfg) (hdr qdb mparam : Name) (parses : Bool) (cols : List Name) : Out :=
+  importCore c hdr qdb mparam (parses && !underscoreCol cols) cols
 
 /-- `mparam`: `measurement` query parameter (csv, parquet) / `x-arc-measurement` header (tle, itle);
 `fileOk`: the uploaded body parses; `cols`: the column names found in the file. -/
